@@ -53,7 +53,7 @@ def ctor_variations(rng, cfg):
 
 
 def community_session(rng, version, flavour=None, **kw):
-    cfg = {"version": version, "community": rng.choice(["public", "c0", "private-community-string", ""]), "timeout_ns": gen.timeout_ns(rng)}
+    cfg = {"version": version, "community": rng.choice(["public", "c0", "private-community-string", "", "public", "L" * rng.choice([127, 128, 200, 256])]), "timeout_ns": gen.timeout_ns(rng)}
     cfg.update(kw)
     return ctor_variations(rng, cfg)
 
